@@ -139,7 +139,7 @@ def payload_value(kind, rng):
     if kind == "bool":
         return rng.random() < .5
     if kind == "duration":
-        return timedelta(seconds=rng.randrange(-10 ** 8, 10 ** 8), milliseconds=rng.randrange(1000))
+        return timedelta(seconds=rng.randrange(-10 ** 8, 10 ** 8), milliseconds=rng.randrange(1000), microseconds=rng.choice([0, 0, 1, 500, 999, rng.randrange(1000)]))
     return None
 
 
